@@ -256,6 +256,12 @@ func (in *Interp) InstallStringStubs() {
 		}
 		return []Value{&Slice{Elems: &out}}, nil
 	}
+	in.Stubs["strings.TrimPrefix"] = func(in *Interp, _ Value, a []Value) ([]Value, error) {
+		return []Value{strings.TrimPrefix(a[0].(string), a[1].(string))}, nil
+	}
+	in.Stubs["strings.TrimSuffix"] = func(in *Interp, _ Value, a []Value) ([]Value, error) {
+		return []Value{strings.TrimSuffix(a[0].(string), a[1].(string))}, nil
+	}
 	in.Stubs["strings.ReplaceAll"] = func(in *Interp, _ Value, a []Value) ([]Value, error) {
 		return []Value{strings.ReplaceAll(a[0].(string), a[1].(string), a[2].(string))}, nil
 	}
